@@ -228,8 +228,13 @@ class PipeGen:
         win = self.cfg.win_in_mutate if win is None else win
         k = self.draw(st.integers(1, 3))
         items, taken = [], set()
+        vis_agg = [n for n, c in t.visible if c in t.agg_cols]
         for _ in range(k):
             name = self.new_col_name(t, taken)
+            if self.cfg.exclude_known and len(vis_agg) == 1 and name == vis_agg[0]:
+                # K03 (open finding): the last selected column of an ungrouped summarize is not overwritten
+                name = self.new_col_name(t, taken | {name}, allow_overwrite=False)
+                self.excluded["K03"] = self.excluded.get("K03", 0) + 1
             taken.add(name)
             fam = self.pick(FAMS if (self.cfg.expr.strings and self.cfg.expr.dates) else ("int", "float", "bool"))
             use_ftype = self.chance(3)
